@@ -1,5 +1,5 @@
 """C10 — no client input can crash a handler or wedge the node."""
-import re, itertools
+import re, itertools, os
 from vlib import core
 from vlib.runner import Spec, Failure
 from checks import cmdgen
@@ -47,8 +47,8 @@ def lines_for(tier, rng):
 
 class C10(Spec):
     pid = "C10"
-    lean_module = "NunVerif.Props.C10"
-    theorems = ["Nun.C10_panic_sites_justified", "Nun.C10_replicate_needs_selection"]
+    lean_module = "NunVerif.Props.C10Commands"
+    theorems = ["Nun.C10_command_vocabulary", "Nun.C10_every_command_word_of_the_source_is_modelled", "Nun.C10_aliases_share_a_parser", "Nun.C10_unlisted_word_is_unknown", "Nun.C10_panic_sites_justified", "Nun.C10_replicate_needs_selection"]
     rule = ("every command word (and unknown ones) x 0-1 arguments exhaustively and 2-5 arguments seeded from the quantifier's token alphabet "
             "(empty, non-numeric, i32/u64/u128 boundaries, $$ keys, ';', newline, 600-byte token, non-ASCII), plus random printable/UTF-8 strings, plus long lines (20-9000 characters) of 2-, 3- and 4-byte UTF-8 characters at every byte alignment (so that a character straddles every possible byte offset); "
             "the replication envelope nested 3 to 30000 deep (blank, newline and `;` padded); every command word with its arguments dropped one by one (no key, empty key, blanks only) and every snapshot / replicate-snapshot form over database lists (known, unknown, mixed, both orders) and the replicate-* commands with the node's replication loop pumped after each; "
@@ -60,6 +60,16 @@ class C10(Spec):
                 ("snapshot-without-db", ["RESET", "SESS 1", "C 1 auth adm pw", "C 1 create-db a tok", "C 1 snapshot false a", "SESS 9", "C 9 use-db a tok"] + PROBE),
                 ("arbiter-empty-queue", SETUP + ["C 3 set q a", "C 3 set-safe q -2 x", "C 3 set q y", "C 3 get-safe q"] + PROBE),
                 ("inc-overflow", SETUP + ["C 1 set n 2147483647", "C 1 increment n"] + PROBE)]
+
+    def extra_obligations(self, build):
+        """the fuzz alphabet of the checks names every command word of the source (Gen/Commands.lean, regenerated on this run)"""
+        try:
+            g = open(os.path.join(core.LEAN, "NunVerif", "Gen", "Commands.lean")).read()
+            words = re.findall(r"^  -- (\S+) ->", g, re.M)
+            missing = [w for w in words if w not in cmdgen.WORDS]; extra = [w for w in cmdgen.WORDS if w not in words]
+            return [("fuzz alphabet = command table of the source", not missing and not extra and len(words) > 30, f"{len(words)} words; missing from the alphabet {missing}; not in the source {extra}")]
+        except Exception as e:
+            return [("fuzz alphabet = command table of the source", False, str(e))]
 
     def extra_stage(self, tier, seed):
         from vlib import transport
